@@ -122,17 +122,17 @@ def make_analysis(rng, model, spec=None, quant=0.0):
 # models
 
 
-def gen_model(ctx, prog=None):
-    """(program, model) with 1..5 free parameters on which the likelihood is finite"""
+def gen_model(ctx, prog=None, min_free=1):
+    """(program, model) with min_free..5 free parameters on which the likelihood is finite"""
     rng = ctx.rng
-    for _ in range(200):
+    for _ in range(2000):
         p = prog or gen_comp.gen_program(rng, max_priors=4, allow_arith=False, allow_array=False,
                                          allow_extra=False, allow_tuple=True)
         try:
             H = gen_comp.run_program(p)
             model = H["root"]
             n = model.prior_count
-            if not (1 <= n <= 5):
+            if not (min_free <= n <= 5):
                 raise ValueError("size")
             inst = model.instance_from_unit_vector([0.5] * n, ignore_prior_limits=True)
             xs = [v for _, v in leaves(inst)]
@@ -702,9 +702,10 @@ class RejectingAnalysis(QuadAnalysis):
         # a likelihood that is constant or tiny must not reject every draw (the initializer would loop for ever)
         import struct
         bits = 0
-        for x in xs:
-            bits ^= struct.unpack("<Q", struct.pack("<d", float(x)))[0] >> 18
-        if bits % 4 == 0:
+        for x in xs:  # not an xor: a prior shared by two places would cancel itself
+            bits = (bits * 31 + (struct.unpack("<Q", struct.pack("<d", float(x)))[0] >> 18)) % 1000003
+        self.n_calls = getattr(self, "n_calls", 0) + 1
+        if bits % 4 == 0 and self.n_calls <= 80:  # (bounded: whatever happens, the initializer ends)
             return float("nan")
         return v
 
@@ -801,7 +802,8 @@ def as_lists(a):
 
 def fit_case(ctx, kind, prog=None, spec=None, settings=None):
     rng = ctx.rng
-    prog, model = gen_model(ctx, prog)
+    # several scipy calls need a problem that does not converge at once: at least 2 free parameters
+    prog, model = gen_model(ctx, prog, min_free=2 if (settings or {}).get("ipu") and prog is None else 1)
     analysis = make_analysis(rng, model, spec)
     settings = settings or {}
     if "pool_map_ordered" not in ctx.notes:
@@ -835,7 +837,12 @@ def fit_case(ctx, kind, prog=None, spec=None, settings=None):
                           nsteps=settings.setdefault("nsteps", 40), number_of_cores=cores, **named,
                           auto_correlation_settings=AutoCorrelationsSettings(check_for_convergence=False, check_size=8))
     elif kind in ("LBFGS", "BFGS"):
-        search = getattr(af, kind)(visualize=bool(settings.get("history")), number_of_cores=cores, **named)
+        extra = {}
+        if settings.get("ipu"):
+            # several scipy calls per fit: the history is stitched across checkpoints
+            extra["iterations_per_update"] = settings["ipu"]
+            extra["maxiter"] = settings.get("maxiter", 8)
+        search = getattr(af, kind)(visualize=bool(settings.get("history")), number_of_cores=cores, **named, **extra)
     elif kind in ("PySwarmsGlobal", "PySwarmsLocal"):
         search = getattr(af, kind)(n_particles=settings.setdefault("particles", 4), iters=settings.setdefault("iters", 5),
                                    number_of_cores=cores, **named)
@@ -878,6 +885,10 @@ def fit_case(ctx, kind, prog=None, spec=None, settings=None):
                "chain": [[hexrow(r) for r in step] for step in internal.get_chain().tolist()],
                "logp": [hexrow(step) for step in internal.get_log_prob().tolist()]}
     elif kind in ("LBFGS", "BFGS"):
+        ipu = settings.get("ipu")
+        if ipu:
+            tot = int(getattr(internal, "total_iterations", 0) or 0)
+            ctx.hit("bfgs-scipy-calls:" + ("1" if tot <= ipu else "2-3" if tot <= 3 * ipu else ">3"))
         if settings.get("history"):
             ck = "bfgs_hist"
             req = {"q": "bfgs_hist", "hist": [hexrow(list(map(float, r))) for r in internal.parameters_history_list],
@@ -913,6 +924,10 @@ QUICK_FITS = [
     ("BFGS", {}),
     ("LBFGS", {"history": True}),
     ("BFGS", {"history": True}),
+    ("LBFGS", {"history": True, "ipu": 2, "maxiter": 8}),
+    ("BFGS", {"history": True, "ipu": 2, "maxiter": 6}),
+    ("LBFGS", {"history": True, "ipu": 3, "maxiter": 9}),
+    ("LBFGS", {"ipu": 2, "maxiter": 6}),
     ("PySwarmsGlobal", {}),
     ("PySwarmsLocal", {}),
     ("Drawer", {}),
